@@ -73,11 +73,28 @@ meta = {"property": pid, "variant": x,
             f"demo with patch -> rc {res['demo_with_patch']['rc']}"],
             "demo_failure_tail": res["demo_with_patch"]["tail"][-500:]}}
 if run_check:
-    subprocess.run(["git", "-C", "/repo", "apply", str(dst / "patch.diff")], check=True)
+    # the checks run against a scratch clone of /repo's HEAD with the patch applied (VERIF_REPO), so that /repo's
+    # working tree is never disturbed while other work uses it
+    seedrepo = "/tmp/seedrepo"
+    if not Path(seedrepo).exists():
+        subprocess.run(["git", "clone", "-q", "/repo", seedrepo], check=True)
+    subprocess.run(f"git -C {seedrepo} fetch -q /repo HEAD && git -C {seedrepo} reset -q --hard FETCH_HEAD && git -C {seedrepo} clean -qfd", shell=True, check=True)
+    # the patch was written against the pinned commit; /repo has since received `fix:` commits. If it no longer applies,
+    # a hand-ported equivalent (seeded/<id>/patch.ported.diff, same mutation on the repaired code) is used when present.
+    ported = dst / "patch.ported.diff"
+    use = ported if ported.exists() else dst / "patch.diff"
+    ap = subprocess.run(["git", "-C", seedrepo, "apply", str(use)], stdout=subprocess.PIPE, stderr=subprocess.STDOUT, text=True)
+    meta["applies_to_current_head"] = ap.returncode == 0
+    meta["patch_used_for_check"] = use.name
+    if ap.returncode != 0:
+        meta["check_result"] = {"note": "patch.diff does not apply to the repaired /repo HEAD; needs a hand-ported patch.ported.diff", "git_apply": ap.stdout[-400:]}
+        (dst / "meta.json").write_text(json.dumps(meta, indent=1))
+        print("NEEDS-PORT", pid, x)
+        sys.exit(0)
     try:
-        p = subprocess.run(["./check", pid, "--tier", "quick"], cwd="/verif", stdout=subprocess.PIPE, stderr=subprocess.STDOUT, text=True, timeout=3000)
+        p = subprocess.run(["./check", pid, "--tier", "quick"], cwd="/verif", env=dict(os.environ, VERIF_REPO=seedrepo), stdout=subprocess.PIPE, stderr=subprocess.STDOUT, text=True, timeout=3000)
         lines = [l for l in p.stdout.splitlines() if l.startswith(("VIOLATION", "KNOWN", "OK"))]
-        meta["check_result"] = {"cmd": f"./check {pid} --tier quick", "rc": p.returncode, "lines": lines,
+        meta["check_result"] = {"cmd": f"VERIF_REPO=<clone of /repo HEAD + patch.diff> ./check {pid} --tier quick", "rc": p.returncode, "lines": lines,
                                 "caught": p.returncode == 1, "with_concrete_input": any(l.startswith("VIOLATION") and "no-failing-input-found" not in l for l in lines)}
         # keep one replay for the record
         for l in lines:
@@ -89,6 +106,6 @@ if run_check:
                     pass
                 break
     finally:
-        subprocess.run(["git", "-C", "/repo", "checkout", "--", "."], check=True)
+        subprocess.run(f"git -C {seedrepo} reset -q --hard && git -C {seedrepo} clean -qfd", shell=True, check=True)
 (dst / "meta.json").write_text(json.dumps(meta, indent=1))
 print("CONFIRMED", pid, x, meta.get("check_result", {}).get("lines"))
